@@ -1348,7 +1348,7 @@ def run(ctx):
     for key, what, cfg, f, differs in w1:
         todo.append(("witness:" + key, cfg, f, ["witness:" + key]))
     todo += corpus1()
-    n = ctx.n(7, 75)
+    n = ctx.n(6, 75)
     for kind in KINDS:
         for _ in range(n if kind != "plain" else 3):
             cfg, f, tags = gen_case(rng, kind)
@@ -1369,7 +1369,7 @@ def run(ctx):
     w2 = witnesses2()
     for key, what, cfg, f, shape in w2:
         todo.append(("witness:" + key, cfg, f, ["witness:" + key], shape))
-    n2 = ctx.n(5, 50)
+    n2 = ctx.n(4, 50)
     for kind in KINDS2:
         for i in range(n2 if kind != "plain" else 2):
             cfg, f, tags = gen_case(rng, kind, eq=(i % 3 == 0))
